@@ -20,6 +20,7 @@ from ..errors import (
     InvalidEncryptedKeyError,
     InvalidExchangeKeyError,
     ConflictAlgorithmError,
+    MissingEncryptionError,
 )
 from ..util import (
     json_b64encode,
@@ -85,6 +86,8 @@ def perform_decrypt(obj: EncryptionData, registry: JWERegistry) -> None:
 
 
 def _perform_decrypt(obj: EncryptionData, registry: JWERegistry) -> None:
+    if "enc" not in obj.protected:
+        raise MissingEncryptionError()
     enc = registry.get_enc(obj.protected["enc"])
 
     iv = obj.bytes_segments["iv"]
